@@ -161,8 +161,10 @@ struct JSONUtils {
                                     continue;
                                 }
 
-                                // Surrogate
-                                if ((length - offset) > SizeT{5}) {
+                                // Surrogate: the high half has to be followed by "\u" and a low half.
+                                if (((length - offset) > SizeT{5}) && (content[offset] == JSONotation::BSlashChar) &&
+                                    ((content[(offset + SizeT{1})] == JSONotation::U_Char) ||
+                                     (content[(offset + SizeT{1})] == JSONotation::CU_Char))) {
                                     code = (code ^ 0xD800U) << 10U;
                                     offset += SizeT{2};
 
@@ -203,6 +205,10 @@ struct JSONUtils {
                 }
 
                 default: {
+                    // No control character can appear in a string unescaped (RFC 8259, section 7).
+                    if ((content[offset] >= Char_T{0}) && (content[offset] < Char_T{0x20})) {
+                        return 0;
+                    }
                 }
             }
 
